@@ -8,6 +8,7 @@ CONSTANTS
   RepInner = {"init"}
   FullProduct = FALSE
   Open0Set = {FALSE}
+  ForeignSet = {FALSE}
 SPECIFICATION Spec
 INVARIANT W_Rotated
 INVARIANT W_OpenActive
